@@ -16,6 +16,10 @@ ASSUMPTIONS = [
 TRUSTED = ["harness/pipeline.py (tie)", "lxml serialisation"]
 
 
+def conv(SVG, src, c):
+    return SVG.fromstring(src).topicosvg(ndigits=c["ndigits"], drop_unsupported=bool(c.get("drop_unsupported"))).tostring()
+
+
 def correspondence(ctx):
     n = 700 if ctx.thorough() else 110
     rng = ctx.rng
@@ -25,21 +29,22 @@ def correspondence(ctx):
     for _ in range(n):
         c = c01.gen_case(rng)
         c["allow_text"] = False
-        c["drop_unsupported"] = False
-        o, out1 = common.outcome_of(lambda: SVG.fromstring(c["src"]).topicosvg(ndigits=c["ndigits"]).tostring())
+        # dropping unsupported elements is part of the conversion too: keep the option a third of the time
+        c["drop_unsupported"] = bool(c.get("drop_unsupported")) and rng.random() < 0.7
+        o, out1 = common.outcome_of(lambda: conv(SVG, c["src"], c))
         ctx.count("pass1:" + o)
         if o != "ok":
             continue
         items.append((c, out1))
     ctx._items = items
     # first pass against the model as well (the op order of the pipeline matters for what the second pass sees)
-    runs1 = [pipeline.Run(c["src"], ["topicosvg %d 0 0" % c["ndigits"]]) for c, _ in items]
+    runs1 = [pipeline.Run(c["src"], ["topicosvg %d 0 %d" % (c["ndigits"], int(bool(c.get("drop_unsupported"))))]) for c, _ in items]
     live1 = [(c, r) for (c, _), r in zip(items, runs1) if r.in_wire is not None]
     for (c, r), m in zip(live1, ctx.model([r.model_line() for _, r in live1])):
         why = r.compare(m)
         if why:
             dis.append({"what": "first pass: %s" % why, "kind": "pipeline1", "input": c})
-    runs = [pipeline.Run(out1, ["topicosvg %d 0 0" % c["ndigits"]]) for c, out1 in items]
+    runs = [pipeline.Run(out1, ["topicosvg %d 0 %d" % (c["ndigits"], int(bool(c.get("drop_unsupported"))))]) for c, out1 in items]
     outs = ctx.model([r.model_line() for r in runs])
     nontrivial = 0
     for (c, out1), r, m in zip(items, runs, outs):
@@ -60,12 +65,12 @@ def correspondence(ctx):
 def check_idem(c, out1):
     SVG = pipeline.impl()
     nd = c["ndigits"]
-    o2, out2 = common.outcome_of(lambda: SVG.fromstring(out1).topicosvg(ndigits=nd).tostring())
+    o2, out2 = common.outcome_of(lambda: conv(SVG, out1, c))
     if o2 != "ok":
         return "the converted document is rejected on the second pass (%s)" % o2, None
     if out2 != out1:
         return "pass 2 differs from pass 1", out2
-    o3, out3 = common.outcome_of(lambda: SVG.fromstring(out2).topicosvg(ndigits=nd).tostring())
+    o3, out3 = common.outcome_of(lambda: conv(SVG, out2, c))
     if o3 != "ok" or out3 != out2:
         return "pass 3 differs from pass 2", out3
     og, viol = common.outcome_of(lambda: SVG.fromstring(out1).checkpicosvg())
@@ -116,8 +121,9 @@ def search(ctx, disagreements):
             c = c01.gen_case(ctx.rng)
             if ctx.rng.random() < 0.5:
                 c["kind"], c["src"] = pipeline.gen_doc(ctx.rng, ctx.rng.choice(["cascade", "all", "hostile"]))
-            c["allow_text"] = c["drop_unsupported"] = False
-            o, out1 = common.outcome_of(lambda: SVG.fromstring(c["src"]).topicosvg(ndigits=c["ndigits"]).tostring())
+            c["allow_text"] = False
+            c["drop_unsupported"] = bool(c.get("drop_unsupported")) and ctx.rng.random() < 0.7
+            o, out1 = common.outcome_of(lambda: conv(SVG, c["src"], c))
             if o == "ok":
                 extra.append((c, out1))
         ctx.count("escalated-cases", len(extra))
@@ -147,7 +153,7 @@ def classify(v, findings):
 def replay_finding(ctx, e):
     c = e["witness"]
     SVG = pipeline.impl()
-    o, out1 = common.outcome_of(lambda: SVG.fromstring(c["src"]).topicosvg(ndigits=c["ndigits"]).tostring())
+    o, out1 = common.outcome_of(lambda: conv(SVG, c["src"], c))
     if o != "ok":
         return False
     why, out2 = check_idem(c, out1)
@@ -158,7 +164,7 @@ def replay(ctx, payload):
     if payload.get("kind") == "idempotence":
         c = payload["input"]
         SVG = pipeline.impl()
-        out1 = SVG.fromstring(c["src"]).topicosvg(ndigits=c["ndigits"]).tostring()
+        out1 = conv(SVG, c["src"], c)
         why, out2 = check_idem(c, out1)
         return {"fails": bool(why), "detail": why, "pass1": out1, "pass2": out2}
     return {"fails": bool(ctx.tie_breaks), "no_longer_checks": ctx.tie_breaks}
